@@ -1,5 +1,6 @@
 import NixModel.Pure.Version
 import NixModel.Lemmas.C11
+import NixModel.Lemmas.C11Uuid
 
 /-!
 # C11 — open modes and format-version gating protect existing files
@@ -421,6 +422,14 @@ theorem C11_conservative_history (evs : List Ev) (hp : ∀ e ∈ evs, Ev.conserv
     refine ⟨d', ?_, g2.trans h2, g3.trans h3⟩
     show (evRun (evStep ⟨some d, sess⟩ e).1 evs).1.disk = some d'
     rw [h1]; exact g1
+
+/-- **The id hypothesis is what `uuid4()` delivers.** Every string of the form `8-4-4-4-12` hex
+digits (either case) is accepted as a file id; so `C11_overwrite_fresh` / `C11_missing_creates`
+apply to every id `create_id()` can draw. -/
+theorem C11_canonical_id_accepted (a b c e g : Str) (ha : a.length = 8) (hb : b.length = 4) (hc : c.length = 4)
+    (he : e.length = 4) (hg : g.length = 12) (hx : ∀ ch ∈ a ++ b ++ c ++ e ++ g, isHex ch = true) :
+    isUuid (some (a ++ '-' :: (b ++ '-' :: (c ++ '-' :: (e ++ '-' :: g))))) = true :=
+  uuidAccepts_canonical a b c e g ha hb hc he hg hx
 
 /-! ## non-vacuity: the hypotheses are met, and every row of the table occurs -/
 
